@@ -131,6 +131,16 @@ impl Iso2022JpDecoder {
         eof = {
             match self.decoder_state {
                 Iso2022JpDecoderState::TrailByte | Iso2022JpDecoderState::EscapeStart => {
+                    // The output space that was checked before reading the
+                    // previous byte may already have been used up by the
+                    // caller for an earlier error from this same call
+                    // (ESC in the trail byte state is reported as an error
+                    // and the lone ESC is then another error at EOF), so
+                    // make sure there is room for another REPLACEMENT
+                    // CHARACTER before reporting this one.
+                    if let Space::Full(dst_written) = dest.check_space_bmp() {
+                        return (DecoderResult::OutputFull, src_consumed, dst_written);
+                    }
                     self.decoder_state = self.output_state;
                     return (DecoderResult::Malformed(1, 0), src_consumed, dest.written());
                 }
